@@ -185,7 +185,7 @@ namespace OP2Utility::Archive
 
 		// Seek to beginning of first internal chunk (provided it exists)
 		// Note: this seeks past the initial format tag (such as RIFF and WAVE)
-		uint32_t currentPosition = sizeof(RiffHeader);
+		uint64_t currentPosition = sizeof(RiffHeader);
 		seekableStreamReader.Seek(currentPosition);
 
 		ChunkHeader header;
